@@ -2,14 +2,14 @@
    ExtrOcamlBasic only: bool, option, list, prod, unit, sumbool map to OCaml's;
    N, positive, nat, Z stay Coq's inductive numbers. No Extract Constant. *)
 From Coq Require Extraction ExtrOcamlBasic.
-From Odf Require Import model.Base model.Teletype model.Inst model.XmlTree model.NsTable model.Dom model.Construct model.EasyList model.UserField model.Package model.ParseSites model.LoadStyles model.Grammar model.GrammarInst model.Load model.LoadInst model.Convert model.ConvInst model.Html model.DomCheck model.HtmlDoc model.FixPart.
+From Odf Require Import model.Base model.Teletype model.Inst model.XmlTree model.NsTable model.Dom model.Construct model.EasyList model.UserField model.Package model.ParseSites model.LoadStyles model.Grammar model.GrammarInst model.Load model.LoadInst model.Convert model.ConvInst model.Html model.DomCheck model.HtmlDoc model.FixPart model.PackageCheck.
 Extraction Language OCaml.
 Separate Extraction
   Teletype.encode Teletype.extract Teletype.add_text_checked Teletype.reparse
   Inst.i_text_toXml Inst.i_quoteattr Inst.i_cdata_toXml Inst.i_node_toXml Inst.i_canon
   Inst.i_write_open_tag Inst.i_xml_parse Inst.i_lex Inst.i_used_auto_styles Inst.i_contentxml Inst.i_stylesxml Inst.i_metaxml Inst.i_settingsxml Inst.i_flatxml XmlTree.write_close_tag
   NsTable.ns_step NsTable.get_nsprefix NsTable.get_knownns
-  Dom.step Dom.heap_of Dom.get_elements_by_type Dom.get_style_by_name Construct.construct Construct.set_attribute EasyList.style_from_list EasyList.style_from_string EasyList.css_split UserField.update UserField.list_fields_and_values Package.save_m Package.load_m Package.add_object Package.classify ParseSites.load_reads LoadStyles.load_all LoadStyles.new_name GrammarInst.i_add_element GrammarInst.i_add_text GrammarInst.i_set_attribute GrammarInst.i_construct GrammarInst.selems LoadInst.i_load_doc ConvInst.i_convert ConvInst.i_valid Html.h_escape Html.h_quoteattr Html.h_opentag Html.h_closetag Html.h_emptytag
+  Dom.step Dom.heap_of Dom.get_elements_by_type Dom.get_style_by_name Construct.construct Construct.set_attribute EasyList.style_from_list EasyList.style_from_string EasyList.css_split UserField.update UserField.list_fields_and_values Package.save_m PackageCheck.pairs_distinct PackageCheck.shape_ok PackageCheck.core PackageCheck.extras_apart Package.load_m Package.add_object Package.classify ParseSites.load_reads LoadStyles.load_all LoadStyles.new_name GrammarInst.i_add_element GrammarInst.i_add_text GrammarInst.i_set_attribute GrammarInst.i_construct GrammarInst.selems LoadInst.i_load_doc ConvInst.i_convert ConvInst.i_valid Html.h_escape Html.h_quoteattr Html.h_opentag Html.h_closetag Html.h_emptytag
   DomCheck.lheap DomCheck.wf_ok DomCheck.idx_ok DomCheck.comp_ok DomCheck.op_okb DomCheck.keeps_topb
   HtmlDoc.h_render HtmlDoc.wellnested HtmlDoc.ev_ok
   FixPart.fix_part FixPart.root_start FixPart.root_begin FixPart.root_stop FixPart.is_odf_part.
